@@ -97,11 +97,45 @@ def site_check(C):
                             isinstance(ch.func.value, ast.Attribute) and ch.func.value.attr == "hw_driver":
                         found.add((relf, qual, ch.lineno))
                     stack.append((ch, q))
+    def helper_of_verified(relf, qual, seen=()):
+        """a private method whose only uses are direct calls self.<m>(...) from functions under contract (or from
+        such helpers): its body is executed in line at those call sites by the verifier, so it is covered"""
+        if "." not in qual or not qual.split(".")[-1].startswith("_") or qual in seen:
+            return None
+        cls, meth = qual.rsplit(".", 1)
+        src, tree = extract.load_module(relf)
+        callers, escapes = set(), False
+        for n in ast.walk(tree):
+            if isinstance(n, ast.ClassDef) and n.name == cls:
+                for fn_ in n.body:
+                    if not isinstance(fn_, (ast.FunctionDef, ast.AsyncFunctionDef)):
+                        continue
+                    called = {id(c.func) for c in ast.walk(fn_) if isinstance(c, ast.Call)}
+                    for a in ast.walk(fn_):
+                        if isinstance(a, ast.Attribute) and a.attr == meth and isinstance(a.value, ast.Name) and \
+                                a.value.id == "self":
+                            if id(a) in called:
+                                callers.add(cls + "." + fn_.name)
+                            else:
+                                escapes = True
+        if escapes or not callers:
+            return None
+        for c in callers:
+            if (relf, c) in SITES_UNDER_CONTRACT:
+                continue
+            if helper_of_verified(relf, c, seen + (qual,)) is None:
+                return None
+        return "private helper called only from %s: executed in line there by the verifier" % sorted(callers)
+
     for relf, qual, line in sorted(found):
         key = (relf, qual)
         ok = key in SITES_UNDER_CONTRACT or key in SITES_LISTED
-        why = SITES_UNDER_CONTRACT.get(key) or SITES_LISTED.get(key) or \
-            "NEW actuation site outside every contract: %s:%d in %s calls hw_driver directly" % (relf, line, qual)
+        why = SITES_UNDER_CONTRACT.get(key) or SITES_LISTED.get(key)
+        if not ok:
+            why = helper_of_verified(relf, qual)
+            ok = why is not None
+        if not ok:
+            why = "NEW actuation site outside every contract: %s:%d in %s calls hw_driver directly" % (relf, line, qual)
         rows.append(("site[%s:%s]" % (relf, qual), ok, why))
     for key in SITES_UNDER_CONTRACT:
         if not any((r, q) == key for r, q, _ in found):
